@@ -8,7 +8,8 @@ for f in sorted(glob.glob('/verif/seeded/*/meta.json')):
     ck = m.get('checks', {}).get(p)
     first = m.get('reported_as_delivered_before_the_check_was_touched', m.get('reported_before_the_check_was_strengthened_for_wave_2'))
     rows.append((m['name'], p, m.get('wave', 1),
-                 'DETECTED' if ck and ck['detected'] else ('not detected' if ck else 'check not built yet'),
+                 'DETECTED' if ck and ck['detected'] else ('no longer a defect on HEAD (its demo passes)' if m.get('obsolete_on_head')
+                                                            else ('not detected' if ck else 'check not built yet')),
                  {None: 'see DESIGN 8.5', True: 'yes', False: 'no - check strengthened'}[first],
                  ', '.join(ck['fingerprints']) if ck else ''))
 with open('/verif/seeded/RESULTS.md', 'w') as f:
@@ -16,6 +17,9 @@ with open('/verif/seeded/RESULTS.md', 'w') as f:
             '| seeded change | property | wave | result now | reported as first delivered? | fingerprints |\n|---|---|---|---|---|---|\n')
     for r in rows:
         f.write('| %s | %s | %s | %s | %s | %s |\n' % r)
-    f.write('\n%d seeded changes, %d detected by the current quick tier.\n' % (len(rows), sum(r[3] == 'DETECTED' for r in rows)))
+    f.write('\n%d seeded changes, %d detected by the current quick tier, %d no longer a defect on HEAD, %d accepted by design '
+            '(C03 sampling conventions, DESIGN 8.5 / 8.7).\n' % (len(rows), sum(r[3] == 'DETECTED' for r in rows),
+                                                                  sum(r[3].startswith('no longer') for r in rows),
+                                                                  sum(r[3] == 'not detected' for r in rows)))
 print('%d seeded changes, %d detected' % (len(rows), sum(r[3] == 'DETECTED' for r in rows)))
 print('\n'.join('%s: %s' % (r[0], r[3]) for r in rows if r[3] != 'DETECTED'))
